@@ -1,8 +1,8 @@
 #!/venv/bin/python
 """sensitivity test: copy /repo/src to a scratch dir, apply exact-text edits,
 run a check against the copy (NFCPY_SRC), remove the copy.
-usage: mutate.py C11 [--tier quick] [--leg x] [--seed n] -e 'nfc/llcp/pdu.py::OLD::NEW' [-e ...]
-       (OLD must occur; use ::N suffix 'file::old::new::2' to replace only the N-th occurrence)"""
+usage: mutate.py C11 [--tier quick] [--leg x] [--seed n] -e "nfc/llcp/pdu.py@@OLD@@NEW" [-e ...]
+       (OLD must occur; use @@N suffix "file@@old@@new@@2" to replace only the N-th occurrence)"""
 import argparse, os, shutil, subprocess, sys, tempfile
 ap = argparse.ArgumentParser()
 ap.add_argument("prop"); ap.add_argument("--tier", default="quick"); ap.add_argument("--leg")
@@ -13,7 +13,7 @@ tmp = tempfile.mkdtemp(prefix="mut-", dir="/tmp")
 try:
     shutil.copytree("/repo/src", tmp + "/src")
     for e in a.e:
-        parts = e.split("::")
+        parts = e.split("@@")
         fn, old, new = parts[0], parts[1], parts[2]
         old = old.encode().decode("unicode_escape"); new = new.encode().decode("unicode_escape")
         p = os.path.join(tmp, "src", fn)
